@@ -64,7 +64,7 @@ def ops_for(model):
             'calc': ('calc', {}, {}, None),
             'A1=100': ('calc', {A1: 100}, {M.K('S', 'A1'): ('n', 100.0)}, None),
             'U!A1=-5': ('calc', {U1: -5}, {M.K('U', 'A1', C): ('n', -5.0)}, None),
-            'BASE=1': ('calc', {name_id(C, 'BASE'): 1}, {M.K('U', 'A1', C): ('n', 1.0)}, None),
+            'BASE=1': ('calc', {name_id(B, 'BASE'): 1}, {M.K('U', 'A1', C): ('n', 1.0)}, None),
             'U!B1=50': ('calc', {UB1: 50}, {M.K('U', 'B1', C): ('n', 50.0)}, None),
             'A2=txt': ('calc', {A2: 'zz'}, {M.K('S', 'A2'): ('t', 'zz')}, None),
             'A1:A2=0,0': ('calc', {i(B, 'S', 'A1:A2'): [[0], [0]]}, {M.K('S', 'A1'): ('n', 0.0), M.K('S', 'A2'): ('n', 0.0)}, None),
